@@ -1,6 +1,7 @@
 (** C18 — sync message handling never panics. *)
 From Aranya Require Import base.Tactics gen.GenSync model.Dag model.TravQueue model.Wire model.SyncStore model.SyncResp model.SyncReq
   proofs.SyncWireProofs proofs.SyncLedger.
+From Coq Require Import Sorting.Sorted.
 Local Open Scope N_scope.
 
 (** Decoding and processing ANY byte string: the requester's [receive]
@@ -50,3 +51,16 @@ Proof. exact ledger_complete_proof. Qed.
 Check ledger_complete :
   forallb (fun s => existsb (fun a => site_eqb s (fst a)) accounted) sites_sync = true.
 Print Assumptions ledger_complete.
+
+(** Whole sessions: over ANY sequence of received byte strings the session id
+    never changes, the expected index never decreases, and the indexes at
+    which responses were accepted are strictly increasing — a response is
+    never accepted twice, replayed, or out of sequence. *)
+Theorem session_indexes_increase : session_indexes_increase_stmt.
+Proof. exact session_indexes_increase_proof. Qed.
+Check session_indexes_increase :
+  forall (dbg : bool) (bs : list (list N)) (q qf : requester) (acc : list N),
+  recv_all dbg q bs = (qf, acc) ->
+  q_sid qf = q_sid q /\ q_next q <= q_next qf /\
+  StronglySorted N.lt acc /\ Forall (fun i => q_next q <= i < q_next qf) acc.
+Print Assumptions session_indexes_increase.
